@@ -91,6 +91,31 @@ def work_single(task):
     return acc.result()
 
 
+def work_history(task):
+    """one process stacks many (T,W,N) in a fixed order: shapes of the OUTPUT collide across different
+    (W,N) (5x2 from W=2,N=1 and from W=1,N=2); every call must still be exact"""
+    from vlib import lib
+    lib.load("nojit")
+    from fast_ticc import data_preparation as dp
+    (order,) = task
+    acc = Acc()
+    triples = [(T, W, N) for W in range(1, 7) for N in range(1, 5) for T in range(W, W + 9)]
+    if order == "desc":
+        triples = triples[::-1]
+    elif order == "by_shape":
+        triples.sort(key=lambda t: ((t[0] - t[1] + 1), t[1] * t[2], t[1]))
+    for (T, W, N) in triples:
+        if stopped() or len(acc.fails) >= 3:
+            break
+        before = len(acc.fails)
+        check_single(dp, T, W, N, acc, salt=3)
+        if len(acc.fails) > before:
+            (c, m, sg) = acc.fails[-1]
+            acc.fails[-1] = (dict(c, kind="history", order=order), f"in a sequence of calls ({order}): " + m, sg)
+    acc.sample({"kind": "history", "order": order, "calls": len(triples)})
+    return acc.result()
+
+
 def work_multi(task):
     from vlib import lib
     lib.load("nojit")
@@ -102,14 +127,18 @@ def work_multi(task):
     for lengths in itertools.product((W, W + 1, W + 3), repeat=nseries):
         if stopped():
             break
-        for variant in ("plain", "nanrows"):
+        for variant in ("plain", "nanrows", "zeros"):
             # 'nanrows': a row that is NaN on every sensor (distinct payloads) in the first and the last series
+            # 'zeros': one whole series is +0.0 / -0.0 (bit patterns still tell the cells apart by sign only)
             series = []
             for i, T in enumerate(lengths):
                 rows = ()
                 if variant == "nanrows":
                     rows = (min(1, T - 1),) if i == 0 else ((T - 1,) if i == nseries - 1 else ())
-                series.append(distinct_cells(T, N, salt=i + 1, nanrows=rows))
+                cells = distinct_cells(T, N, salt=i + 1, nanrows=rows)
+                if variant == "zeros" and i == min(1, nseries - 1):
+                    cells = np.where((np.arange(T * N).reshape(T, N) % 2) == 0, 0.0, -0.0)
+                series.append(cells)
             keep = [u64(s).copy() for s in series]
             case = {"kind": "multi", "W": W, "N": N, "lengths": list(lengths), "variant": variant}
             acc.n += 1
@@ -168,6 +197,8 @@ def run(ctx):
     singles = [(W, N) for W in range(1, 13) for N in range(1, 7)]
     for r in ctx.pmap(work_single, singles):
         ctx.take(r)
+    for r in ctx.pmap(work_history, [("asc",), ("desc",), ("by_shape",)]):
+        ctx.take(r)
     ws = (1, 2, 3, 5) if not ctx.thorough else (1, 2, 3, 4, 5, 8)
     multis = [(W, N, n) for W in ws for N in (1, 2) for n in range(1, 7)]
     for r in ctx.pmap(work_multi, multis):
@@ -177,7 +208,7 @@ def run(ctx):
         "every (T,W,N) with W in 1..12, N in 1..6, T in W..W+40 (2952 triples), cells = pairwise distinct "
         "bit patterns incl. NaN payloads, inf, -0.0, denormals, compared as uint64; every tuple of 1..6 series "
         "lengths from {W,W+1,W+3} for W in " + str(list(ws)) + " x N in {1,2}: joint stacking == vstack of "
-        "individual reference stackings (also with rows that are NaN on every sensor), split+pad round trip; int64/float32/int8 inputs by value; "
+        "individual reference stackings (also with rows that are NaN on every sensor and with a series that is all +-0.0), call sequences in one process in three orders (output shapes collide across (W,N)), split+pad round trip; int64/float32/int8 inputs by value; "
         "non-trivial = W>1 and T>W (single) or >= 2 series (multi)")
 
 
@@ -189,6 +220,8 @@ def replay(ctx, case):
     if case["kind"] == "single":
         check_single(dp, case["T"], case["W"], case["N"], acc, case.get("salt", 0))
         ctx.take(acc.result())
+    elif case["kind"] == "history":
+        ctx.take(work_history((case["order"],)))
     elif case["kind"] == "dtype":
         ctx.take(work_single((case["W"], case["N"])))
     else:
